@@ -6,11 +6,13 @@ import (
 	"fmt"
 	"os"
 	"path/filepath"
+	"reflect"
 	"regexp"
 	"runtime"
 	"sort"
 	"strings"
 	"sync"
+	"sync/atomic"
 	"testing"
 
 	"github.com/osteele/liquid"
@@ -67,13 +69,36 @@ type c04Case struct {
 	Procs     int         `json:"procs,omitempty"`
 	Delims    []string    `json:"delims,omitempty"` // Engine.Delims configuration (empty strings = defaults), nil = not called
 	Cold      bool        `json:"cold,omitempty"`   // the shared engine does nothing before the goroutines start: each goroutine parses what it renders
+
+	dyn      any    // run-time only: a value of a struct type made for this run (c04Dyn)
+	dynField string // its first field's name, substituted for DYNFIELD in the templates
 }
 
 const c04Included = "[inc {{ n }}{% for q in a %}{% cycle 'x', 'y' %}{% endfor %}]"
 
+// c04Dyn returns a value of a struct type that the process has not seen before (whatever the library
+// remembers per type is cold for it), and the name of its first field.
+var c04DynSeq atomic.Int64
+
+func c04Dyn() (any, string) {
+	n := c04DynSeq.Add(1)
+	field := fmt.Sprintf("Fa%d", n)
+	t := reflect.StructOf([]reflect.StructField{
+		{Name: field, Type: reflect.TypeOf(0)},
+		{Name: fmt.Sprintf("Fb%d", n), Type: reflect.TypeOf(""), Tag: `liquid:"tagged"`},
+		{Name: fmt.Sprintf("Fc%d", n), Type: reflect.TypeOf([]int(nil))},
+	})
+	v := reflect.New(t).Elem()
+	v.Field(0).SetInt(n % 7)
+	v.Field(1).SetString("tagged-field")
+	v.Field(2).Set(reflect.ValueOf([]int{1, 2}))
+	return v.Interface(), field
+}
+
 // c04Spell writes a template in the case's delimiters (plain substitution: whatever
 // comes out is a template or a syntax error, the same for every goroutine).
 func c04Spell(c *c04Case, src string) string {
+	src = strings.ReplaceAll(src, "DYNFIELD", c.dynField)
 	if len(c.Delims) != 4 {
 		return src
 	}
@@ -99,8 +124,16 @@ func c04Engine(c *c04Case) (*liquid.Engine, error) {
 	if len(c.Delims) == 4 {
 		eng.Delims(c.Delims[0], c.Delims[1], c.Delims[2], c.Delims[3])
 	}
-	if !c.Cold {
+	includes := false
+	for _, t := range c.Templates {
+		includes = includes || strings.Contains(t, "include '")
+	}
+	// (a cold engine has done nothing at all before the goroutines start - unless a template includes)
+	if !c.Cold || includes {
 		if _, err := eng.ParseTemplateAndCache([]byte(c04Spell(c, c04Included)), "inc.html", 1); err != nil {
+			return nil, err
+		}
+		if _, err := eng.ParseTemplateAndCache([]byte(c04Spell(c, "in the included file: {{ 1 | divided_by: zero }}")), "incerr.html", 1); err != nil {
 			return nil, err
 		}
 	}
@@ -111,6 +144,7 @@ func c04Run(c *c04Case) *hx.Violation {
 	if c.Cold {
 		return c04RunCold(c)
 	}
+	c.dyn, c.dynField = c04Dyn()
 	eng, err := c04Engine(c)
 	if err != nil {
 		return hx.V("harness-error", "%v", err)
@@ -132,6 +166,7 @@ func c04Run(c *c04Case) *hx.Violation {
 		}
 	}
 	env := c.Binds.Realise() // one set of binding values shared by every goroutine
+	env["dyn"], env["zero"] = c.dyn, 0
 	do := func(op c04Op, tpls []*liquid.Template) (res string) {
 		if pi := hx.Guard(func() {
 			k := op.K % len(c.Templates)
@@ -193,12 +228,13 @@ func c04Run(c *c04Case) *hx.Violation {
 // c04RunCold: the configured engine is used for the first time by the goroutines themselves.
 // The reference results come from a second engine configured identically and used sequentially.
 func c04RunCold(c *c04Case) *hx.Violation {
-	ref, err := c04Engine(c)
+	c.dyn, c.dynField = c04Dyn()
+	eng, err := c04Engine(c)
 	if err != nil {
 		return hx.V("harness-error", "%v", err)
 	}
-	eng, _ := c04Engine(c)
 	env := c.Binds.Realise()
+	env["dyn"], env["zero"] = c.dyn, 0
 	one := func(e *liquid.Engine, k, via int) (res string) {
 		if pi := hx.Guard(func() {
 			src := c04Spell(c, c.Templates[k])
@@ -241,6 +277,8 @@ func c04RunCold(c *c04Case) *hx.Violation {
 	want := map[int]string{}
 	for _, r := range all {
 		if _, ok := want[r.k]; !ok {
+			// "what it returns when run alone": on an engine of its own that has done nothing else
+			ref, _ := c04Engine(c)
 			want[r.k] = one(ref, r.k, 0)
 		}
 		if r.got != want[r.k] {
@@ -344,6 +382,9 @@ func TestC04(t *testing.T) {
 			snippets = append(snippets, "{{ s | "+f+" }}")
 		}
 	}
+	// a struct type no render has seen, read field by field; an included file that fails, included from different lines
+	snippets = append(snippets, "{{ dyn.DYNFIELD }}{{ dyn.tagged }}{% for q in (1..2) %}{{ dyn.DYNFIELD }}{% endfor %}", "{{ dyn.tagged }}{{ dyn.DYNFIELD | plus: 1 }}",
+		"{% include 'incerr.html' %}", "\n{% include 'incerr.html' %}", "\n\n\n{% include 'incerr.html' %}")
 	snippets = append(snippets, "{% include 'inc.html' %}", "{% for q in x %}{% cycle 'a', 'b' %}{% cycle 'g': '1', '2' %}{% endfor %}", "{% tablerow q in a cols: 2 %}{{ q }}{% endtablerow %}", "{% capture cc %}{{ s }}{% endcapture %}{{ cc }}", "{% case n %}{% when 1 %}one{% else %}other{% endcase %}", "{% raw %}{{ raw }}{% endraw %}{% comment %}c{% endcomment %}", "{% unless b %}u{% endunless %}", "{% assign vv = a | sort %}{{ vv | join }}", "{{ r | map: 'v' | join }}", "{{ dm.a }}{{ dm | size }}",
 		"{% for q in a %}{% assign ff = forloop %}{% endfor %}{{ ff.index }}/{{ ff.length }}", "{% for q in (1..3) %}{% if forloop.first %}{% assign ff = forloop %}{% endif %}{{ ff.index }}{% endfor %}",
 		"{% echo n={{ n }} s={{ s | upcase }} %}", "{% for q in a %}{% echo [{{ q }}] %}{% endfor %}", "{% wrap {{ n }} %}{{ s }}{% echo {{ k }} %}{% endwrap %}", "{% assign zz = n | plus: 1 %}{{ zz }}", "{% capture zc %}{{ n }}{% endcapture %}{{ zc }}",
